@@ -417,7 +417,7 @@ pub fn run(ctx: &Ctx, rep: &mut Report) {
     rep.prop(
         "radials",
         "proptest: decode-level messages built from public fields: valid date/time, all 256 spacing and status codes, finite angles, each of the 7 moments present/absent with 0..=64 (some to 1840) gates of 8 or 16 bits and finite scale/offset; oracle = radial() == into_radial(), accessor-by-accessor mapping, one value per gate by the closed form, decode level == model level; non-trivial = >= 1 moment with >= 2 gates and scale != 0",
-        ctx.tier.pick(100_000, 20_000_000),
+        ctx.tier.pick(1_500_000, 20_000_000),
         move || {
             (gen::drd(opts, gen::elevation_any(), None), prop_oneof![12 => Just(false), 1 => Just(true)]).prop_map(|(mut drd, day_zero)| {
                 if day_zero {
